@@ -70,6 +70,12 @@ def run_case(S, kind, arg):
         if sorted(K.calls) != sorted(itertools.product(range(n1), range(n2))):
             problems.append(f"kernel called on pairs {sorted(K.calls)}")
         return got, exp, problems
+    if kind == "kernel_matrix batched":
+        n1, n2 = arg
+        Ks = [Kernel(S, symmetric=False, normalized=False, tag=f"k{b}_") for b in range(2)]
+        got = qp.kernels.kernel_matrix(points(n1), points(n2, 10), lambda a, b: np.array([K(a, [b[0] - 10]) for K in Ks], dtype=object))
+        exp = [[[K.value(i, j) for j in range(n2)] for i in range(n1)] for K in Ks]  # documented shape (batch, N, M)
+        return got, exp, problems
     if kind == "square":
         n, normalized = arg
         K = Kernel(S, symmetric=True, normalized=normalized)
@@ -177,6 +183,7 @@ def work(item):
 def run(ctx):
     ctx.level = "other"
     items = [("kernel_matrix", a) for a in ((1, 1), (2, 3), (3, 2), (4, 4))]
+    items += [("kernel_matrix batched", a) for a in ((2, 3), (3, 2), (2, 2))]
     items += [("square", (n, nz)) for n in (1, 2, 3, 4) for nz in (False, True)]
     items += [(k, (l, nz, rs)) for k in ("polarity", "target_alignment") for l in LABELS for nz in (False, True) for rs in (True, False)]
     if ctx.only:
